@@ -222,3 +222,29 @@ Proof.
   - simpl. apply perm_trans with [2;1;3]%Z; [apply perm_swap|]. apply perm_skip. apply perm_swap.
   - eexists. vm_compute. repeat split; reflexivity.
 Qed.
+
+(* ---- tie to the source: the two kernels the theorems above are about against the definitions
+   tools/py2v regenerates from _subsample.pyx on every check (Gen/SubsampleGen.v: in place on the
+   whole array, the inner while on explicit fuel).  Partial: conditional on the model's own flag
+   (true = no index outside the segment, fuel not exhausted, a draw was recorded; proved true under
+   the contract of rng.choice by walk_counts) and on the offsets lying inside the array; with
+   replacement, on every recorded draw having the length of its segment (what multinomial returns). *)
+From BiomV Require Gen.Prelude.
+From BiomV Require Import Gen.SubsampleGen Proofs.GenBridgeSubsampleProofs.
+Theorem kernel_wo_is_source_partial : forall n indptr data draws d dr,
+  (forall i, (i < length indptr - 1)%nat ->
+             (nth i indptr 0%nat <= nth (S i) indptr 0%nat)%nat /\ (nth (S i) indptr 0%nat <= length data)%nat) ->
+  kernel_wo n indptr data draws = (d, dr, true) ->
+  subsample_wo data indptr n tt draws = (d, dr, true).
+Proof. exact kernel_wo_bridge_partial. Qed.
+Print Assumptions kernel_wo_is_source_partial.
+
+Theorem kernel_rep_is_source_partial : forall n indptr data draws d dr,
+  (forall i, (i < length indptr - 1)%nat ->
+             (nth i indptr 0%nat <= nth (S i) indptr 0%nat)%nat /\ (nth (S i) indptr 0%nat <= length data)%nat) ->
+  (nth 0 indptr 0%nat <= length data)%nat ->
+  (forall j, (j < length indptr - 1)%nat -> length (nth j draws []) = (nth (S j) indptr 0 - nth j indptr 0)%nat) ->
+  kernel_rep indptr data draws = Some (d, dr) ->
+  subsample_rep data indptr n tt draws = Gen.Prelude.Ok (d, dr).
+Proof. exact kernel_rep_bridge_partial. Qed.
+Print Assumptions kernel_rep_is_source_partial.
